@@ -123,6 +123,9 @@ Definition is_exported (s : string) : bool :=
   | String c _ => let n := nat_of_ascii c in Nat.leb 65 n && Nat.leb n 90
   end.
 Definition has_prefix (p s : string) : bool := String.prefix p s.
+Fixpoint contains_l (sub s : list ascii) : bool :=
+  prefix_l sub s || match s with [] => false | _ :: s' => contains_l sub s' end.
+Definition contains (sub s : string) : bool := contains_l (chars sub) (chars s).
 Fixpoint trim_go (s : string) : string :=     (* strings.TrimSuffix(s, ".go") *)
   match s with
   | EmptyString => EmptyString
@@ -672,7 +675,10 @@ Definition new_render (d : ndata) : afile :=
                                                      | None => []
                                                      end) (nd_all d));
                  d_doc := true; d_tail := false;
-                 d_needs := flat_map (fun f => if ahas f (nd_newmap d) then uses (tyof d f) else []) (nd_all d);
+                 (* the parameter list prints every field with ITS OWN type (newParamsList walks g.fields), so two fields
+                    of one name reached at the same depth (K_ctor_ambiguous_promoted) both count, whatever TypeMap keeps *)
+                 d_needs := filter (fun i => contains (" " ++ i ++ ".") (" " ++ nd_params d) ||
+                                             contains (" *" ++ i ++ ".") (" " ++ nd_params d)) hw_needs;
                  d_toks := [nd_tplist d; nd_params d; nd_body d] |} in
   let opt : list adecl := if nd_option d then
                [{| d_name := T ++ ".With"; d_kind := KMethod T; d_doc := true; d_tail := false;
@@ -1200,6 +1206,32 @@ Definition for_pairs (tags : list (string * string)) (body : string -> string ->
       | _, _ => a
       end) (map m_name D0) a) (map m_name S0) ps.
 
+(* mismatch.go makeSubMap (the non-slice form): both fields have a named struct type (or a pointer to one), of the package
+   and of the destination package: dest.F = src.F.ToDest() / src.F = FromDest(dest.F).  Nothing here looks at the type
+   list of the run or at generated methods.  CanMap + Type + the two IsPtr flags are kept in the m_func slot as one token *)
+Definition strip_star (t : string) : string * bool :=
+  if has_prefix "*" t then (substring 1 (String.length t - 1) t, true) else (t, false).
+Definition sub_map_pair (v dv : pview) (qual : string) (n1 n2 : string) (ps : pstate) : pstate :=
+  let '(Sf, Df, ws, wd, rs, wm) := ps in
+  match mget n1 Sf, mget n2 Df with
+  | Some f1, Some f2 =>
+      let '(t1, p1) := strip_star (m_ty f1) in
+      let '(t2, p2) := strip_star (m_ty f2) in
+      match find_struct v t1, find_struct dv t2 with
+      | Some _, Some _ =>
+          let tok := "sub:" ++ (if p1 then "*" else "") ++ ":" ++ (if p2 then "*" else "") ++ ":" in
+          let '(Sf1, D1, wd1, rs1) :=
+            if negb (smem n2 wd) && negb (m_isget f2)
+            then (mupd n1 (fun f => mf_set_target f n2) Sf, mupd n2 (fun f => mf_set_func f (tok ++ qual ++ t2)) Df, sadd n2 wd, upsert n1 n2 rs)
+            else (Sf, Df, wd, rs) in
+          if negb (smem n1 ws) && negb (m_isget f1)
+          then (mupd n1 (fun f => mf_set_func f (tok ++ t1)) Sf1, mupd n2 (fun f => mf_set_target f n1) D1, sadd n1 ws, wd1, rs1, upsert n1 n2 wm)
+          else (Sf1, D1, ws, wd1, rs1, wm)
+      | _, _ => ps
+      end
+  | _, _ => ps
+  end.
+
 (* match.go makeTypeMatch, one pair *)
 Definition type_match_pair (qual : string) (n1 n2 : string) (ps : pstate) : pstate :=
   let '(Sf, Df, ws, wd, rs, wm) := ps in
@@ -1330,7 +1362,7 @@ Definition map_make_gen (rs : resets) (o : oracle) (c : cmd) (destpkg : string) 
           (* makeTypeMismatch: g.writeSrcMap = {}; g.readSrcMap = {}; then makeTypeMatch *)
           let ps0 : pstate := (exp1, dexp1, wsrc1, wdest1,
                                (if rs_mmaps rs then [] else ms_rsm st), (if rs_mmaps rs then [] else ms_wsm st)) in
-          let ps1 := for_pairs tags (func_map funcs) ps0 in
+          let ps1 := for_pairs tags (fun n1 n2 ps => sub_map_pair v dv qual n1 n2 (func_map funcs n1 n2 ps)) ps0 in
           let '(Sf, Df, ws, wd, rsm, wm) := for_pairs tags (type_match_pair qual) ps1 in
           (* makeReadCond: g.srcPathsMap = {}; g.destPathsMap = {} / nilCheckRead / nilCheckWrite *)
           let spaths := prepare_read_paths Sf sptr in
@@ -1537,10 +1569,6 @@ Definition run_generate (o : oracle) (p : pkg) (prior : gfiles) (c : cmd) : opti
 
 (* ------------------------------------------------------------------ *)
 (* main.go: write loop and Clean                                       *)
-
-Fixpoint contains_l (sub s : list ascii) : bool :=
-  prefix_l sub s || match s with [] => false | _ :: s' => contains_l sub s' end.
-Definition contains (sub s : string) : bool := contains_l (chars sub) (chars s).
 
 (* generatorbase.go Clean *)
 Definition clean (c : cmd) (aio : string) (dir : gfiles) : gfiles :=
